@@ -353,7 +353,8 @@ class Prop:
             if got == wrap(k, doubled):
                 d24_seen = True
                 continue
-            return f"copy form {k}: got {got} expected {wrap(k, plain)}", None, info
+            alt = "" if doubled == plain else f" (or, with the D24 leaves, {wrap(k, doubled)})"
+            return f"copy form {k}: got {got} expected {wrap(k, plain)}{alt}", None, info
         if d24_seen:
             return (f"D24: copying form adds {info['d24']} leaf copies (visited nodes answered True / SkipBranch(and_self=False) "
                     f"receive a copy of themselves as first child); otherwise as specified"), "D24", info
